@@ -8,7 +8,7 @@ TB = [
 PROPS = {
     "C03": {
         "level": "exploration",
-        "rule": "seeded cases (config x target address x write scripts x reference options); per case the real encoders' output is decoded by the strict reference implementation and reference output by the real decoders, for streams (request and response), Shadowsocks UDP datagrams (both roles) and VMess/Trojan datagram-in-stream; a case is non-trivial when at least one stream or datagram was completely decoded and compared; distinct = distinct (seed, index) descriptors that were non-trivial",
+        "rule": "seeded cases (config x target address x write scripts x reference options); per case the real encoders' output is decoded by the strict reference implementation and reference output by the real decoders, for streams (request and response; half of the reference client's messages are delivered to the real server in several pieces, as a peer that writes a message in several writes would, never inside the Shadowsocks 2022 first-read prefix), Shadowsocks UDP datagrams (both roles) and VMess/Trojan datagram-in-stream; a case is non-trivial when at least one stream or datagram was completely decoded and compared; distinct = distinct (seed, index) descriptors that were non-trivial",
         "assumptions": TB + ["item sizes handed to real encoders are capped at 8192 bytes, the largest item the relay's 8 KiB read buffer can produce", "clock pinned through the verif clock hook"],
         "plan": [
             {"name": "differential", "check": "c03"},
@@ -110,7 +110,7 @@ E2E_TB = TB + ["loopback only; the nodes are the crates' own client::main()/serv
 
 PROPS["C01"] = {
     "level": "exploration",
-    "rule": "configuration matrix protocol x cipher (10) x client-server transport (5): quick = every protocol with two transports (rotating with the seed), thorough = all 50; per configuration 12/40 scripted flows over the four README local handshakes (SOCKS5 IPv4, SOCKS5 domain, HTTP CONNECT, plain HTTP) with seeded sizes 0..1 MiB per direction, write sizes 1..64 KiB, pauses, request/response and simultaneous streaming and every closing pattern, first one at a time then 8 at a time, plus bursts of 24/64 concurrent flows and flows in which the application sends nothing and the target speaks first; oracles: positional streams at application and target (order, loss, duplication, corruption, cross-flow bytes), listener identity for the dialled address, completeness for the direction the closing pattern guarantees, end-of-stream, byte-identical plain-HTTP head, node panics and liveness; evaluations = flows; non-trivial = at least one payload byte verified or a symptom; distinct = distinct (configuration, flow)",
+    "rule": "configuration matrix protocol x cipher (10) x client-server transport (5): quick = every protocol with two transports (rotating with the seed), thorough = all 50; per configuration 12/40 scripted flows over the four README local handshakes (SOCKS5 IPv4, SOCKS5 domain, HTTP CONNECT, plain HTTP) with seeded sizes 0..1 MiB per direction, write sizes 1..64 KiB, pauses, request/response and simultaneous streaming and every closing pattern, first one at a time then 8 at a time, every plain-tcp configuration and half of the tls/ws/wss ones behind a forwarder that re-cuts the client-server link into pieces of random size (finely, 1..8 bytes, over the first 256 bytes of each direction where the protocol heads live; Shadowsocks 2022 keeps its protocol-mandated first-read prefix whole), plus bursts of 24/64 concurrent flows and flows in which the application sends nothing and the target speaks first; oracles: positional streams at application and target (order, loss, duplication, corruption, cross-flow bytes), listener identity for the dialled address, completeness for the direction the closing pattern guarantees, end-of-stream, byte-identical plain-HTTP head, node panics and liveness; evaluations = flows; non-trivial = at least one payload byte verified or a symptom; distinct = distinct (configuration, flow)",
     "assumptions": E2E_TB + ["the closing side's own bytes must arrive completely; the opposite direction only needs the prefix property after that moment (C15 semantics)", "README 'only IPv4': IPv6 targets are not part of the verdict"],
     "plan": [{"name": "relay", "check": "c01", "bin": "osv-e2e", "timeout": {"quick": 900, "thorough": 3600}}],
 }
